@@ -283,3 +283,30 @@ Proof.
   - repeat constructor.
   - intros t [<-|[<-|[]]]; cbn [t_vars keys map fst]; intros k Hk; [exact Hk|destruct Hk].
 Qed.
+
+(* C03 closure, in one statement *)
+Lemma c03_closed : forall (p : ipoly R),
+  wf_poly p ->
+  (forall v, wf_poly (i_derivate_multivariate p v) /\
+             incl (i_vars (i_derivate_multivariate p v)) (i_vars p)) /\
+  (forall v, wf_poly (i_integral_multivariate p v) /\
+             (forall k, In k (i_vars (i_integral_multivariate p v)) -> In k (i_vars p) \/ k = v)) /\
+  (forall d, i_derivate_univariate p = Ok d -> wf_poly d /\ i_vars d = i_vars p) /\
+  (forall q, i_integral_univariate p = Ok q -> wf_poly q /\ (length (i_vars q) <= 1)%nat).
+Proof.
+  intros p H. split; [|split; [|split]].
+  - intro v. apply c03_closed_derivate_multivariate. exact H.
+  - intro v. apply c03_closed_integral_multivariate. exact H.
+  - intros d Hd. exact (c03_closed_derivate_univariate p d H Hd).
+  - intros q Hq. exact (c03_closed_integral_univariate p q H Hq).
+Qed.
+
+(* constant polynomial: no variable at all; still usable (the repaired F3) *)
+Example wf_poly_constant : wf_poly {| i_terms := [ {| t_coef := 5; t_vars := [] |} ]; i_vars := [] |}
+  /\ (length (@nil name) <= 1)%nat.
+Proof.
+  split; [|cbn; lia]. unfold wf_poly, term_sorted. cbn [i_terms i_vars]. split; [|split].
+  - intros t [<-|[]]. cbn. constructor.
+  - constructor.
+  - intros t [<-|[]] k Hk. destruct Hk.
+Qed.
